@@ -114,4 +114,34 @@ def tlsOp : List String → String
     | _, _, _, _, _, _, _, _, _ => "BADLINE"
   | l => if l.getLast? == some "PANIC" then propfail "panic" else "BADLINE"
 
+/-- what a connection URL configures: (default port, TLS mode); `none` = refused -/
+def urlPolicy (scheme tls : String) : Option (Nat × String) :=
+  if scheme == "smtp" then
+    (if tls == "-" then some (25, "None") else if tls == "required" then some (587, "Required")
+     else if tls == "opportunistic" then some (587, "Opportunistic") else none)
+  else if scheme == "smtps" then some (465, "Wrapper")
+  else none
+
+/-- `ctor <kind> …`: the convenience constructors -/
+def ctorOp : List String → String
+  | ["relay", host, rs, ra] =>
+    let exp := s!"465,Wrapper,{host}"
+    if rs == exp && ra == exp then "ok" else propfail s!"relay-is-not-implicit-TLS-on-465:{rs}:{ra}"
+  | ["starttls", host, rs, ra] =>
+    let exp := s!"587,Required,{host}"
+    if rs == exp && ra == exp then "ok" else propfail s!"starttls_relay-is-not-required-TLS-on-587:{rs}:{ra}"
+  | ["localhost", rs, ra] =>
+    let exp := "25,None,6c6f63616c686f7374"
+    if rs == exp && ra == exp then "ok" else s!"MISMATCH ctor model={exp}"
+  | ["url", _url, scheme, tls, port, host, rs, ra] =>
+    let exp := match urlPolicy scheme tls with
+      | some (p, m) => s!"{if port == "-" then toString p else port},{m},{host}"
+      | none => "err"
+    if rs == "PANIC" then propfail "panic"
+    else if rs == exp && ra == exp then "ok"
+    else if exp != "err" && (rs == "err" || ra == "err") then s!"MISMATCH ctor model={exp}"
+    else propfail s!"connection-URL-configures-{rs}-and-{ra}-instead-of-{exp}"
+  | ["mech", r] => if r == "101" then "ok" else s!"MISMATCH ctor model=101"
+  | l => if l.getLast? == some "PANIC" then propfail "panic" else "BADLINE"
+
 end LV.Driver.C06
